@@ -7,6 +7,7 @@ package main
 
 import (
 	"fmt"
+	"go/ast"
 	"go/token"
 	"go/types"
 	"sort"
@@ -68,6 +69,7 @@ type FuncGen struct {
 	invAssumed map[string]bool
 	invTouched map[string]touched
 	returns    []retEdge
+	fspec      *frameSpec
 }
 
 type touched struct {
@@ -443,6 +445,8 @@ type loopInfo struct {
 	headReach string
 	decTerm  string
 	entrySt  *State
+	frameComps []string
+	text     string
 }
 
 func (fg *FuncGen) findLoops() {
@@ -503,6 +507,11 @@ func (fg *FuncGen) findLoops() {
 		if best >= 0 {
 			li.ordinal = best + 1
 			li.scopePos = stmts[best].bodyPos
+			if r, ok := stmts[best].Node.(*ast.RangeStmt); ok {
+				li.text = "range " + fg.g.exprText(r.X)
+			} else {
+				li.text = fmt.Sprintf("for-loop %d", li.ordinal)
+			}
 		}
 		if fg.ct != nil {
 			li.spec = fg.ct.Loops[li.ordinal]
@@ -646,6 +655,15 @@ func (fg *FuncGen) run() {
 		for _, r := range fg.ct.Requires {
 			t := fg.trBool(r.Expr, env)
 			fg.assume(t)
+		}
+		if ict, names := fg.implemented(); ict != nil {
+			ienv := fg.implEnv(fg.entry, fg.entry, names)
+			if p := fg.g.pkgByPath(ict.Pkg); p != nil {
+				ienv.pkg = p
+			}
+			for _, r := range ict.Requires {
+				fg.assume(fg.trBool(r.Expr, ienv))
+			}
 		}
 		// vacuity: the preconditions (with type facts) must be satisfiable
 		if len(fg.ct.Requires) > 0 {
@@ -808,6 +826,21 @@ func (fg *FuncGen) loopHead(li *loopInfo) {
 		t := fg.trBool(inv.Expr, env)
 		fg.oblige("inv-entry", label+": "+inv.Text, t, inv.Props, inv.Text)
 	}
+	// the function's frame condition is an implicit invariant of every loop
+	var frameComps []string
+	for c := range ms.comps {
+		frameComps = append(frameComps, c)
+	}
+	sort.Strings(frameComps)
+	if ms.all {
+		frameComps = nil
+	}
+	for _, c := range frameComps {
+		if f := fg.frameFormula(entrySt, c); f != "" {
+			fg.oblige("inv-entry", label+": frame of "+c, f, nil, "modifies")
+		}
+	}
+	li.frameComps = frameComps
 	// havoc
 	st := entrySt.clone()
 	if ms.all {
@@ -858,6 +891,11 @@ func (fg *FuncGen) loopHead(li *loopInfo) {
 		env := fg.loopEnv(li, st)
 		fg.assumeHere(fg.trBool(inv.Expr, env))
 	}
+	for _, c := range frameComps {
+		if f := fg.frameFormula(st, c); f != "" {
+			fg.assumeHere(f)
+		}
+	}
 	if li.spec != nil && li.spec.Decreases != nil {
 		env := fg.loopEnv(li, st)
 		v := fg.tr(li.spec.Decreases.Expr, env, types.Typ[types.Int])
@@ -872,12 +910,18 @@ func (fg *FuncGen) loopHead(li *loopInfo) {
 }
 
 func (fg *FuncGen) loopBack(li *loopInfo, cond string) {
-	if li.spec == nil {
-		return
-	}
 	label := fmt.Sprintf("loop %d", li.ordinal)
 	saveReach := fg.reach
 	fg.reach = cond
+	defer func() { fg.reach = saveReach }()
+	for _, c := range li.frameComps {
+		if f := fg.frameFormula(fg.cur, c); f != "" {
+			fg.oblige("inv-preserve", label+": frame of "+c, f, nil, "modifies")
+		}
+	}
+	if li.spec == nil {
+		return
+	}
 	for _, inv := range li.spec.Invariants {
 		env := fg.loopEnv(li, fg.cur)
 		t := fg.trBool(inv.Expr, env)
@@ -891,4 +935,22 @@ func (fg *FuncGen) loopBack(li *loopInfo, cond string) {
 		fg.oblige("variant", label+": "+li.spec.Decreases.Text, goal, li.spec.Decreases.Props, li.spec.Decreases.Text)
 	}
 	fg.reach = saveReach
+}
+
+// srcOr: source text at pos, or a description derived from the innermost enclosing loop
+// (go/ssa gives no position to the implicit element access of a range loop).
+func (fg *FuncGen) srcOr(pos token.Pos, want string) string {
+	if t := fg.g.srcText(pos, want); t != "" {
+		return t
+	}
+	var best *loopInfo
+	for _, li := range fg.loops {
+		if li.blocks[fg.block] && (best == nil || len(li.blocks) < len(best.blocks)) {
+			best = li
+		}
+	}
+	if best != nil && best.text != "" {
+		return best.text + " (implicit)"
+	}
+	return "(implicit)"
 }
